@@ -38,7 +38,7 @@ func c19TemplatePath(dir, name string) string {
 	return filepath.Join(dir, name+"_v16.00000.zoekt")
 }
 
-var c19BallastChoices = []int{0, 1500, 6000}
+var c19BallastChoices = []int{0, 0, 150, 600}
 
 // c19BuildTemplates runs in the parent.
 func c19BuildTemplates(rec *kit.Rec) (string, error) {
